@@ -14,10 +14,19 @@
     UploadFile                   = the documented Upload restriction               (no hypothesis)
     parser uniqueness checks     = 5.2.1.1, 5.2.2.1, 5.5.1.1                       (no hypothesis)
   `c09_partial`: restricted to these, rejected ↔ invalid, with no hypothesis at all.
-  NOT proved per rule: FieldsOnCorrectType, FragmentsOnCompositeTypes, ScalarLeafs, KnownArgumentNames,
-  ProvidedNonNullArguments, PossibleFragmentSpreads, ArgumentsOfCorrectType, DefaultValuesOfCorrectType,
-  NoFragmentCycles, NoUnusedFragments, NoUndefinedVariables, NoUnusedVariables, VariableInAllowedPosition,
-  OverlappingFieldsCanBeMerged (+ the recursion guard).
+  Type-dependent rules PROVED for well-formed registries (`SchemaWF`: String not composite, no field
+  called `__typename`, output fields not of input-object type, root types composite):
+    ProvidedNonNullArguments     = 5.4.2.1 Required Arguments
+    FieldsOnCorrectType + ScalarLeafs + FragmentsOnCompositeTypes
+                                 = 5.3.1 Field Selections + 5.3.3 Leaf Field Selections + 5.5.1.3 Fragments
+                                   On Composite Types  (as a block only; documents with `docOK`: no
+                                   sub-selection below `__typename`, no field directive called `ifdef`)
+  `c09_partial_typed`: with these hypotheses, rejected ↔ invalid restricted to 12 of the 22 rule structs
+  (+ walker + parser checks) and 17 of the 28 reference rules.
+  NOT proved per rule: KnownArgumentNames (stale `current_args`), PossibleFragmentSpreads,
+  ArgumentsOfCorrectType, DefaultValuesOfCorrectType, NoFragmentCycles, NoUnusedFragments,
+  NoUndefinedVariables, NoUnusedVariables, VariableInAllowedPosition, OverlappingFieldsCanBeMerged
+  (+ the recursion guard).
 
   The two statements that were OPEN are FALSE of the model as stated and are refuted by witnesses
   (`c09_refuted`, `c09_rule_equivalences_refuted`); `c09_rule_equivalences_served` is the corrected,
@@ -53,6 +62,10 @@
   OBLIGATION c09_rule_upload_file
   OBLIGATION c09_rule_pre_checks
   OBLIGATION c09_partial
+  OBLIGATION c09_rule_provided_non_null_arguments
+  OBLIGATION c09_rule_fields_leafs_composites
+  OBLIGATION c09_partial_typed
+  OBLIGATION c09_witness_schema_wellformed
   OBLIGATION c09_counterexample_two_operations
   OBLIGATION c09_counterexample_ifdef
   OBLIGATION c09_counterexample_enum_default
@@ -64,7 +77,7 @@
 import AGV.Model.Validate
 import AGV.Spec.Validate
 import AGV.Gen.Rules
-import AGV.Lemmas.ValidateRulesC
+import AGV.Lemmas.ValidateBlock
 
 namespace AGV.Props.C09
 open AGV.Core AGV.Model.Validate
@@ -340,6 +353,30 @@ theorem c09_rule_pre_checks :
           ∧ violates_FragmentNameUniqueness d = true)) :=
   ⟨pre_dupOperation d, pre_multipleAnonymous d, pre_dupFragment d⟩
 
+/-- ProvidedNonNullArguments = §5.4.2.1 Required Arguments (well-formed registry) -/
+theorem c09_rule_provided_non_null_arguments (hW : SchemaWF S) (hs : violates_OperationTypeExists S d = false) :
+    (Kind.fieldArgMissing ∈ strictErrors S {} d vars o ∨ Kind.dirArgMissing ∈ strictErrors S {} d vars o) ↔
+      violates_RequiredArguments S d = true := by
+  rw [strict_stateless S d vars o _ (by decide), strict_stateless S d vars o _ (by decide)]
+  exact rule_provided_non_null_arguments S d hW.block.typed (served_of S d hs) (hW.roots d).exist
+
+/-- FieldsOnCorrectType + ScalarLeafs + FragmentsOnCompositeTypes
+    = §5.3.1 Field Selections + §5.3.3 Leaf Field Selections + §5.5.1.3 Fragments On Composite Types.
+    The three only correspond as a block (e.g. `__typename` below a scalar is §5.3.1 for the reference
+    and `ScalarLeafs` for the implementation); well-formed registry, no sub-selection below
+    `__typename`, no field directive called `ifdef`. -/
+theorem c09_rule_fields_leafs_composites (hW : SchemaWF S) (hD : docOK d = true)
+    (hs : violates_OperationTypeExists S d = false) :
+    (Kind.unknownField ∈ strictErrors S {} d vars o ∨ Kind.leafWithSel ∈ strictErrors S {} d vars o
+      ∨ Kind.compositeNoSel ∈ strictErrors S {} d vars o ∨ Kind.fragNonComposite ∈ strictErrors S {} d vars o
+      ∨ Kind.inlineNonComposite ∈ strictErrors S {} d vars o) ↔
+    (violates_FieldSelections S d = true ∨ violates_LeafFieldSelections S d = true
+      ∨ violates_FragmentsOnCompositeTypes S d = true) := by
+  rw [strict_stateless S d vars o _ (by decide), strict_stateless S d vars o _ (by decide),
+    strict_stateless S d vars o _ (by decide), strict_stateless S d vars o _ (by decide),
+    strict_stateless S d vars o _ (by decide)]
+  exact rule_block S d hW.block (served_of S d hs) (hW.roots d) (docOK_selOK d hD)
+
 -- the rules proved so far, on both sides
 
 /-- message kinds of the rules proved above -/
@@ -460,11 +497,103 @@ theorem c09_partial :
           exact ⟨op, hop, v, hv, hb ▸ hU⟩
         · exact strict _ ((c09_rule_upload_file S d vars o).mpr ⟨hU, h⟩) (by decide)
 
+/-- the kinds and reference rules added by the type-dependent theorems -/
+def typedKinds : List Model.Validate.Kind :=
+  [.fieldArgMissing, .dirArgMissing, .unknownField, .leafWithSel, .compositeNoSel, .fragNonComposite, .inlineNonComposite]
+def typedRules : List String :=
+  ["5.4.2.1 Required Arguments", "5.3.1 Field Selections", "5.3.3 Leaf Field Selections", "5.5.1.3 Fragments On Composite Types"]
+
+/-- PARTIAL c09, second stage: for well-formed registries and documents without sub-selections
+    below `__typename` / `ifdef` field directives, the equivalence extends to 12 of the 22 rule
+    structs (+ walker + parser checks) against 17 of the 28 reference rules. -/
+theorem c09_partial_typed (hW : SchemaWF S) (hD : docOK d = true) :
+    ((∃ k ∈ preErrors d, k ∈ provedPre) ∨ (∃ k ∈ strictErrors S {} d vars o, k ∈ provedKinds ++ typedKinds)) ↔
+      (∃ r ∈ violations {} S d vars o, r ∈ provedRules ++ typedRules) := by
+  have h0 := c09_partial S d vars o
+  by_cases hOT : violates_OperationTypeExists S d = true
+  · constructor
+    · intro _
+      exact ⟨"operation type not served", (mem_violations ..).mpr (by simp [hOT]), by decide⟩
+    · intro _
+      exact Or.inr ⟨.notConfigured, (c09_rule_not_configured S d vars o).mpr hOT, by decide⟩
+  · have hs : violates_OperationTypeExists S d = false := by simpa using hOT
+    have hA := c09_rule_provided_non_null_arguments S d vars o hW hs
+    have hB := c09_rule_fields_leafs_composites S d vars o hW hD hs
+    have hK : (∃ k ∈ strictErrors S {} d vars o, k ∈ typedKinds) ↔
+        (violates_RequiredArguments S d = true ∨ violates_FieldSelections S d = true ∨ violates_LeafFieldSelections S d = true
+          ∨ violates_FragmentsOnCompositeTypes S d = true) := by
+      rw [← hA, ← hB]
+      simp only [typedKinds, List.mem_cons, List.not_mem_nil, or_false]
+      constructor
+      · rintro ⟨k, hk, (rfl | rfl | rfl | rfl | rfl | rfl | rfl)⟩
+        · exact Or.inl (Or.inl hk)
+        · exact Or.inl (Or.inr hk)
+        · exact Or.inr (Or.inl hk)
+        · exact Or.inr (Or.inr (Or.inl hk))
+        · exact Or.inr (Or.inr (Or.inr (Or.inl hk)))
+        · exact Or.inr (Or.inr (Or.inr (Or.inr (Or.inl hk))))
+        · exact Or.inr (Or.inr (Or.inr (Or.inr (Or.inr hk))))
+      · rintro ((h | h) | h | h | h | h | h)
+        · exact ⟨_, h, Or.inl rfl⟩
+        · exact ⟨_, h, Or.inr (Or.inl rfl)⟩
+        · exact ⟨_, h, Or.inr (Or.inr (Or.inl rfl))⟩
+        · exact ⟨_, h, Or.inr (Or.inr (Or.inr (Or.inl rfl)))⟩
+        · exact ⟨_, h, Or.inr (Or.inr (Or.inr (Or.inr (Or.inl rfl))))⟩
+        · exact ⟨_, h, Or.inr (Or.inr (Or.inr (Or.inr (Or.inr (Or.inl rfl)))))⟩
+        · exact ⟨_, h, Or.inr (Or.inr (Or.inr (Or.inr (Or.inr (Or.inr rfl)))))⟩
+    have hR : (∃ r ∈ violations {} S d vars o, r ∈ typedRules) ↔
+        (violates_RequiredArguments S d = true ∨ violates_FieldSelections S d = true ∨ violates_LeafFieldSelections S d = true
+          ∨ violates_FragmentsOnCompositeTypes S d = true) := by
+      constructor
+      · rintro ⟨r, hr, hp⟩
+        rw [mem_violations] at hr
+        simp only [typedRules, List.mem_cons, List.not_mem_nil, or_false] at hp
+        rcases hp with rfl | rfl | rfl | rfl <;> simp at hr <;> simp [hr]
+      · rintro (h | h | h | h)
+        · exact ⟨"5.4.2.1 Required Arguments", (mem_violations ..).mpr (by simp [h]), by decide⟩
+        · exact ⟨"5.3.1 Field Selections", (mem_violations ..).mpr (by simp [h]), by decide⟩
+        · exact ⟨"5.3.3 Leaf Field Selections", (mem_violations ..).mpr (by simp [h]), by decide⟩
+        · exact ⟨"5.5.1.3 Fragments On Composite Types", (mem_violations ..).mpr (by simp [h]), by decide⟩
+    have split1 : (∃ k ∈ strictErrors S {} d vars o, k ∈ provedKinds ++ typedKinds) ↔
+        ((∃ k ∈ strictErrors S {} d vars o, k ∈ provedKinds) ∨ (∃ k ∈ strictErrors S {} d vars o, k ∈ typedKinds)) := by
+      simp only [List.mem_append]
+      constructor
+      · rintro ⟨k, hk, h | h⟩
+        · exact Or.inl ⟨k, hk, h⟩
+        · exact Or.inr ⟨k, hk, h⟩
+      · rintro (⟨k, hk, h⟩ | ⟨k, hk, h⟩)
+        · exact ⟨k, hk, Or.inl h⟩
+        · exact ⟨k, hk, Or.inr h⟩
+    have split2 : (∃ r ∈ violations {} S d vars o, r ∈ provedRules ++ typedRules) ↔
+        ((∃ r ∈ violations {} S d vars o, r ∈ provedRules) ∨ (∃ r ∈ violations {} S d vars o, r ∈ typedRules)) := by
+      simp only [List.mem_append]
+      constructor
+      · rintro ⟨k, hk, h | h⟩
+        · exact Or.inl ⟨k, hk, h⟩
+        · exact Or.inr ⟨k, hk, h⟩
+      · rintro (⟨k, hk, h⟩ | ⟨k, hk, h⟩)
+        · exact ⟨k, hk, Or.inl h⟩
+        · exact ⟨k, hk, Or.inr h⟩
+    rw [split1, split2, ← or_assoc, h0, hK, hR]
+
 end rules
 
 /-- the hypothesis of the per-rule theorems holds of the non-trivial valid example, and of documents the rules fire on -/
 example : Spec.Validate.violates_OperationTypeExists S0 dValid = false ∧ Spec.Validate.violates_OperationTypeExists S0 dTypename = false
     ∧ Spec.Validate.violates_OperationTypeExists S0 dSub = false := by decide
+
+open AGV.Lemmas.ValidateRules in
+/-- the witness schema is a well-formed registry -/
+theorem c09_witness_schema_wellformed : SchemaWF S0 where
+  stringNotComposite := by decide
+  noTypenameField := by decide
+  fieldsOutput := by decide
+  rootsComposite := by intro t r h; cases t <;> simp [rootOf, S0] at h <;> subst h <;> decide
+
+open AGV.Lemmas.ValidateRules in
+/-- the hypotheses of the type-dependent theorems hold of the non-trivial valid example and of the
+    documents of the witnesses (`dOverlap`: inline fragments below a union) -/
+example : docOK dValid = true ∧ docOK dOverlap = true ∧ docOK dVarPos = true := by decide
 
 -- ------------------------------------------------------------------ the two original open statements are false
 
